@@ -368,6 +368,49 @@ theorem pkg_ordinary_names_load (cfg : PkgConfig) (fs : FS) (name : List Ch) (tp
     exact pkgSearch_hit hroot' hpre hw hclean hbytes hfile hbad hlen
   simp [pkgGetSource, hres, pyRead_of_file hk]
 
+/-! ## Deepening round: the caching loader -/
+
+/-- along a history of requests (the file system may change arbitrarily between them): every answer is an
+answer `get_source` gives for **this very name** on the file system of this or of an earlier request -/
+def AnswersArePast (cfg : FSLConfig) : List (FS × List Ch) → List (FS × (Comps → Nat) × List Ch) →
+    List (Except Exc (PPath × Nat)) → Prop
+  | H, (fs, _, name) :: hs, r :: rs =>
+    (∀ p c, r = .ok (p, c) → ∃ fs', (fs', name) ∈ (fs, name) :: H ∧ fslGetSource cfg fs' name = .ok (p, c)) ∧
+    AnswersArePast cfg ((fs, name) :: H) hs rs
+  | _, _, _ => True
+
+theorem cachedRun_past (L : CCfg) (hist : List (FS × (Comps → Nat) × List Ch)) :
+    ∀ H cache, CacheInv L.fsl H cache → AnswersArePast L.fsl H hist (cachedRun L cache hist) := by
+  induction hist with
+  | nil => intro H cache _; simp [AnswersArePast]
+  | cons t rest ih =>
+    obtain ⟨fs, mt, name⟩ := t
+    intro H cache hinv
+    obtain ⟨h1, h2⟩ := cachedLoad_step L fs mt H cache name hinv
+    simp only [cachedRun, AnswersArePast]
+    exact ⟨h2, ih _ _ h1⟩
+
+/-- **`CachingFileSystemLoader` (any capacity, auto-reload on or off, any sequence of changes to the file system
+between requests): a cached answer is never anything but what `get_source` returned for the same name at an
+earlier moment** — the cache is filled only through `resolve_path`/`_read`, and a key only ever maps to an
+answer for that key. What it does *not* promise is freshness: with auto-reload off, or when the replacing
+file has the same mtime, the earlier answer keeps being served (see the example below and stream `cache`). -/
+theorem cached_answers_are_past_answers (L : CCfg) (hist : List (FS × (Comps → Nat) × List Ch)) :
+    AnswersArePast L.fsl [] hist (cachedRun L [] hist) :=
+  cachedRun_past L hist [] [] (fun _ h => by simp at h)
+
+/-- **so cached contents obey the same containment**: with `reject_symlinks=True`, whatever a request through
+the cache returns is the content of a regular file that was, by link-free descent, below the search directory —
+on the file system as it was when that answer was loaded. Outside bytes are never served, stale or not. -/
+theorem cached_contents_were_inside (L : CCfg) (hrej : L.fsl.rejectSymlinks = true) (fs : FS) (mt : Comps → Nat)
+    (H : List (FS × List Ch)) (cache : List CEntry) (name : List Ch) (p : PPath) (c : Nat)
+    (hinv : CacheInv L.fsl H cache) (h : (cachedLoad L fs mt cache name).2 = .ok (p, c)) :
+    ∃ fs', (fs', name) ∈ (fs, name) :: H ∧ ∃ base ∈ L.fsl.search, ∃ cb s, canon fs' base = some cb ∧
+      nodeAt fs'.root (cb ++ s) = some (.file c) := by
+  obtain ⟨fs', hm, hg⟩ := (cachedLoad_step L fs mt H cache name hinv).2 p c h
+  obtain ⟨base, hb, cb, s, hcb, _, hnode, _⟩ := fsl_contents_inside_rejecting L.fsl fs' name p c hrej hg
+  exact ⟨fs', hm, base, hb, cb, s, hcb, hnode⟩
+
 /-! ## Non-vacuity: a concrete file system with decoys and links -/
 
 /-- a Python string literal as code points -/
@@ -432,6 +475,24 @@ example : fslGetSource (demoCfg true) demoFS (str "sub/b") = .ok (⟨1, [str "sr
     [str "srv", str "templates"] 2 (by decide) (by decide) (by decide) (by decide) (by decide) (by simp)
     (by decide) (by rfl) (by decide) (by decide) (by decide)
 example : strOf (parse (str "//a/./b//c.txt/")) = str "//a/b/c.txt" := by decide
+
+/-- `a.txt` replaced by a link to the decoy `/srv/secret.txt` (content 99) -/
+def demoFS2 : FS :=
+  { demoFS with root := .dir [
+      (str "srv", .dir [
+        (str "templates", .dir [(str "a.txt", .link false [str "..", str "secret.txt"])]),
+        (str "secret.txt", .file 99)])] }
+
+def demoCache (auto : Bool) : CCfg := { fsl := { demoCfg true with ext := none }, autoReload := auto, capacity := 2 }
+
+-- rejection on, the file is swapped for an outside link after it was cached:
+-- mtime differs → reloaded → rejected; same mtime, or auto-reload off → the earlier *inside* text (1), never 99
+example : cachedRun (demoCache true) [] [(demoFS, fun _ => 1000, str "a.txt"), (demoFS2, fun _ => 2000, str "a.txt")]
+    = [.ok (parse (str "/srv/templates/a.txt"), 1), .error .notFound] := by decide
+example : cachedRun (demoCache true) [] [(demoFS, fun _ => 1000, str "a.txt"), (demoFS2, fun _ => 1000, str "a.txt")]
+    = [.ok (parse (str "/srv/templates/a.txt"), 1), .ok (parse (str "/srv/templates/a.txt"), 1)] := by decide
+example : cachedRun (demoCache false) [] [(demoFS, fun _ => 1000, str "a.txt"), (demoFS2, fun _ => 2000, str "a.txt")]
+    = [.ok (parse (str "/srv/templates/a.txt"), 1), .ok (parse (str "/srv/templates/a.txt"), 1)] := by decide
 
 /-- the hypothesis of the link-free theorems is satisfiable -/
 example : LinkFreeBelow (.dir [([1], .dir [([2], .file 7)])]) [[1]] := by
